@@ -119,6 +119,26 @@ func balancerCounts(w *world, cluster string) (map[int]int, string) {
 	return out, strings.Join(parts, " ")
 }
 
+// settle waits (bounded) until no counter is above zero any more: an inconclusive case
+// must not leave requests in flight that the next case would count as its own.
+func settle(w *world) {
+	waitQuiescent(8 * time.Second)
+	deadline := time.Now().Add(8 * time.Second)
+	for time.Now().Before(deadline) {
+		busy := false
+		for _, cl := range []string{"c", "chold", "cflap"} {
+			cnt, _ := balancerCounts(w, cl)
+			for _, v := range cnt {
+				busy = busy || v != 0
+			}
+		}
+		if !busy {
+			return
+		}
+		time.Sleep(2 * time.Millisecond)
+	}
+}
+
 func TestC07(t *testing.T) {
 	rec := ev.New("C07", "requests through an in-process BFE whose cluster mixes live harness backends and refused ports (RetryMax 2, retry-GET); per request a generated per-arrival backend fault script (close before response, header timeout, half response, good) and a generated module verdict (Finish at HandleForward, Response/Redirect/Close/Finish at request points, Finish/Redirect at HandleReadResponse, Finish at HandleRequestFinish); plus batches of 2..6 concurrent requests held inside backends (optionally overlapped by backend-table reloads), a backend flapping through the health state machine while a request is held, and 1..3 WebSocket (http/https) or TLS-stream tunnels held open. Oracle: ConnNum() of every backend the balancer ever returned is never negative, equals the number of held requests while they are inside a backend exchange, and is 0 at quiescence. non-trivial: >=1 retry, or a forward-phase Finish, or a held batch; distinct by script")
 	var ports []int
@@ -157,6 +177,7 @@ func TestC07(t *testing.T) {
 			for len(w.seenFor(held)) == 0 {
 				if time.Now().After(deadline) {
 					release()
+					settle(w)
 					rec.Class("flap-inconclusive")
 					return
 				}
@@ -181,6 +202,7 @@ func TestC07(t *testing.T) {
 			}
 			if !back {
 				release()
+				settle(w)
 				rec.Class("flap-inconclusive")
 				return
 			}
@@ -298,6 +320,7 @@ func TestC07(t *testing.T) {
 				}
 				if time.Now().After(deadline) {
 					closeAll()
+					settle(w)
 					rec.Class("tunnel-inconclusive")
 					return
 				}
@@ -381,6 +404,7 @@ func TestC07(t *testing.T) {
 				if time.Now().After(deadline) {
 					close(hold)
 					wg.Wait()
+					settle(w)
 					rec.Class("batch-inconclusive")
 					return
 				}
